@@ -35,6 +35,7 @@ type Prog struct {
 	byKey     map[string]*FuncInfo // pkgpath + "." + Key
 	contracts map[string]*Contract // pkgpath.Key -> contract (incl. trusted externals by full name)
 	lemmas    []*Contract
+	defs      map[string]*Contract
 	root      string
 }
 
@@ -47,7 +48,7 @@ func loadProg(root string, patterns []string) (*Prog, error) {
 	if err != nil {
 		return nil, err
 	}
-	p := &Prog{pkgs: map[string]*packages.Package{}, funcs: map[*types.Func]*FuncInfo{}, byKey: map[string]*FuncInfo{}, contracts: map[string]*Contract{}, root: root}
+	p := &Prog{pkgs: map[string]*packages.Package{}, funcs: map[*types.Func]*FuncInfo{}, byKey: map[string]*FuncInfo{}, contracts: map[string]*Contract{}, defs: map[string]*Contract{}, root: root}
 	var errs []string
 	packages.Visit(pkgs, nil, func(pk *packages.Package) {
 		p.pkgs[pk.PkgPath] = pk
@@ -102,6 +103,10 @@ func loadProg(root string, patterns []string) (*Prog, error) {
 					return nil, err
 				}
 				for _, c := range cs {
+					if c.IsDef {
+						p.defs[pk.PkgPath+"."+c.Key] = c
+						continue
+					}
 					if c.Lemma {
 						p.lemmas = append(p.lemmas, c)
 						continue
@@ -130,7 +135,7 @@ func loadProg(root string, patterns []string) (*Prog, error) {
 		return nil, fmt.Errorf("contracts for unknown functions: %s", strings.Join(missing, ", "))
 	}
 	for _, fi := range p.funcs {
-		if fi.Contract != nil && len(fi.Contract.Cuts) > 0 {
+		if fi.Contract != nil && len(fi.Contract.Cuts)+len(fi.Contract.Assumes) > 0 {
 			p.bindCuts(fi)
 		}
 	}
@@ -171,39 +176,7 @@ func (v *Verifier) prescanBoxes(fr *Frame, st *State, fi *FuncInfo) {
 	if fr.boxed == nil {
 		fr.boxed = map[*types.Var]bool{}
 	}
-	info := fi.Pkg.TypesInfo
-	mark := func(e ast.Expr) {
-		e = unparen(e)
-		if s, ok := e.(*ast.StarExpr); ok {
-			e = unparen(s.X)
-		}
-		id, ok := e.(*ast.Ident)
-		if !ok {
-			return
-		}
-		obj, _ := info.Uses[id].(*types.Var)
-		if obj == nil {
-			return
-		}
-		fr.boxed[obj] = true
-	}
-	ast.Inspect(fi.Decl.Body, func(n ast.Node) bool {
-		if se, ok := n.(*ast.SliceExpr); ok {
-			t := info.TypeOf(se.X)
-			if t == nil {
-				return true
-			}
-			switch u := t.Underlying().(type) {
-			case *types.Array:
-				mark(se.X)
-			case *types.Pointer:
-				if _, ok := u.Elem().Underlying().(*types.Array); ok {
-					mark(se.X)
-				}
-			}
-		}
-		return true
-	})
+	v.prescanMark(fr, fi)
 	// pointer-to-array parameters already bound: box their pointees now
 	for o, cell := range fr.vars {
 		obj, isVar := o.(*types.Var)
@@ -347,18 +320,64 @@ func (v *Verifier) intrinsic(fr *Frame, st *State, full string, fn *types.Func, 
 		return TupleVal{out}, true
 	case "(io.Reader).Read", "(io.ReadWriter).Read", "crypto/rand.Read":
 		use()
-		// havoc the buffer; 0 <= n <= len(p); n == len on crypto/rand success
+		// The reader delivers its fixed input stream inByte(rd, k) in order: 0 <= n <= len(p),
+		// p[0:n] are the next n bytes, the rest of p is scratch; rpos advances by n.
 		p := args[0].(SliceVal)
-		v.havocRange(st, p, p.Off, v.iAdd(p.Off, p.Len))
 		n := c.Fresh("read$n", v.eng.IdxSort())
 		st.assume(v.iLe(v.idxConst(0), n))
 		st.assume(v.iLe(n, p.Len))
 		res := fn.Type().(*types.Signature).Results()
 		err := OpaqueVal{Sh: v.eng.shapeOf(res.At(1).Type()), ID: c.Fresh("err", IntSort), Nil: c.Fresh("read$ok", BoolSort)}
+		rd, isRd := recv.(OpaqueVal)
+		if isRd && v.eng.IntIdx() {
+			posH := v.ghostHeap(st, gRdPos)
+			pos0 := c.Select(posH, rd.ID)
+			old := v.eng.heapRows(st, p.Sh.Elem, p.Ref)[0]
+			nr := c.Fresh("readrow", old.Sort)
+			j := c.Bound("j", IntSort)
+			rel := c.ISub(j, p.Off)
+			inData := c.And(c.ILe(p.Off, j), c.ILt(rel, n))
+			inBuf := c.And(c.ILe(p.Off, j), c.ILt(rel, p.Len))
+			st.assume(c.Forall([]*Term{j}, c.And(
+				c.Implies(inData, c.Eq(c.Select(nr, j), c.App("ghost$inByte", BVSort(8), rd.ID, c.IAdd(pos0, rel)))),
+				c.Implies(c.Not(inBuf), c.Eq(c.Select(nr, j), c.Select(old, j))))))
+			v.eng.heapSetRows(st, p.Sh.Elem, p.Ref, []*Term{nr})
+			// on error nothing is known to have been consumed beyond n (n may be 0)
+			v.setGhostHeap(st, gRdPos, c.Store(posH, rd.ID, c.IAdd(pos0, n)))
+		} else {
+			v.havocRange(st, p, p.Off, v.iAdd(p.Off, p.Len))
+		}
 		if full == "crypto/rand.Read" {
 			st.assume(c.Implies(err.Nil, c.Eq(n, p.Len)))
 		}
 		return TupleVal{[]Val{v.intVal(n), err}}, true
+	case "(*sync/atomic.Uint64).Add", "(*sync/atomic.Uint64).Load", "(*sync/atomic.Uint64).Store":
+		use()
+		pv, ok := recv.(PtrVal)
+		if !ok || pv.Loc != nil {
+			return nil, false
+		}
+		if !fr.inSpec {
+			v.oblige(fr, st, "nil", pos, c.Not(pv.Nil), "nil pointer dereference (atomic counter)")
+		}
+		h := v.ghostHeap(st, gAtomic)
+		cur := c.Select(h, pv.Ref)
+		u64 := types.Typ[types.Uint64]
+		switch fn.Name() {
+		case "Load":
+			return Scalar{cur, u64}, true
+		case "Store":
+			v.setGhostHeap(st, gAtomic, c.Store(h, pv.Ref, v.asScalar(args[0], pos).T))
+			return TupleVal{}, true
+		default:
+			nv := c.BVAdd(cur, v.asScalar(args[0], pos).T)
+			v.setGhostHeap(st, gAtomic, c.Store(h, pv.Ref, nv))
+			return Scalar{nv, u64}, true
+		}
+	case "(io.Closer).Close":
+		use()
+		res := fn.Type().(*types.Signature).Results()
+		return OpaqueVal{Sh: v.eng.shapeOf(res.At(0).Type()), ID: c.Fresh("err", IntSort), Nil: c.Fresh("close$ok", BoolSort)}, true
 	case "io.ReadFull":
 		use()
 		p := args[1].(SliceVal)
@@ -408,7 +427,8 @@ func (p *Prog) bindCuts(fi *FuncInfo) {
 	if err != nil || fi.Decl.Body == nil {
 		return
 	}
-	for _, cut := range fi.Contract.Cuts {
+	all := append(append([]*Cut{}, fi.Contract.Cuts...), fi.Contract.Assumes...)
+	for _, cut := range all {
 		want := normStmt([]byte(cut.Anchor))
 		var hits []ast.Stmt
 		ast.Inspect(fi.Decl.Body, func(n ast.Node) bool {
